@@ -92,6 +92,15 @@ pub fn generate(rng: &mut Rng, thorough: bool) -> Vec<String> {
         v.push(format!("c11.seq {}", nat_list(s)));
         v.push(format!("c11.batch {}", nat_list(s)));
     }
+    // more tags than any bounded batch / set size: 5000 tags, one repeated (first & 4097th; adjacent
+    // across 4096; both beyond 4096; none)
+    for (i, j) in [(0usize, 4096usize), (4095, 4096), (4097, 4999), (5000, 5000)] {
+        let s: Vec<u128> = (0..5000usize).map(|k| if k == j { i as u128 } else { k as u128 } * 0x1_0000_0001 + 7).collect();
+        v.push(format!("c11.batch {}", nat_list(&s)));
+        if i == 4097 {
+            v.push(format!("c11.seq {}", nat_list(&s)));
+        }
+    }
     for _ in 0..(if thorough { 2000 } else { 200 }) {
         let len = rng.usize_below(30);
         let dom = 1 + rng.below(40) as u128;
